@@ -1,7 +1,9 @@
 ----------------------------- MODULE Trace_RpcNet -----------------------------
 (* (V) Validates the outcomes observed when schedules of RpcNet.tla (and       *)
 (* random ones) are executed against the real datacake-rpc client and server   *)
-(* inside a turmoil simulation.  One event per request:                        *)
+(* inside a turmoil simulation, and over real sockets through a TCP relay that *)
+(* can hold or cut the link (slack_ms: how late a timed request may be in real *)
+(* time; 50 ms of simulated time otherwise).  One event per request:           *)
 (*  {sched, id, timeout_ms (0 = none), outcome, reply_id, payload_ok,          *)
 (*   elapsed_ms, handler_runs, faults (number of fault events in the schedule)}*)
 EXTENDS Naturals, Sequences, TLC, Json, IOUtils
@@ -9,11 +11,12 @@ EXTENDS Naturals, Sequences, TLC, Json, IOUtils
 Rec == ndJsonDeserialize(IOEnv.TRACE)
 VARIABLES l, bad
 
+Slack(e) == IF "slack_ms" \in DOMAIN e THEN e.slack_ms ELSE 50
 Ok(e) ==
   /\ e.handler_runs <= 1                                              \* never executed twice
   /\ e.outcome \in {"reply", "ConnectionError", "Timeout", "pending"}   \* nothing else
   /\ e.outcome = "reply" => (e.reply_id = e.id /\ e.payload_ok /\ e.handler_runs = 1)   \* that very request's reply
-  /\ e.timeout_ms > 0 => (e.outcome # "pending" /\ e.elapsed_ms <= e.timeout_ms + 50)   \* answered or timed out in time
+  /\ e.timeout_ms > 0 => (e.outcome # "pending" /\ e.elapsed_ms <= e.timeout_ms + Slack(e))   \* answered or timed out in time
   /\ e.outcome = "Timeout" => e.timeout_ms > 0
   /\ e.faults = 0 => e.outcome = "reply"                              \* no fault, no failure
 
